@@ -98,6 +98,29 @@ Theorem C45_history_append_only : forall qf ops1 ops2 x l,
   In x (samples (s_store (fst (run qf ops1))) l) -> In x (samples (s_store (fst (run qf (ops1 ++ ops2)))) l).
 Proof. exact history_append_only. Qed.
 
+(* Concurrent evaluation: the batches of concurrentRuleEvalController.SplitGroupIntoBatches
+   (over the dependency analysis of buildDependencyMap) evaluate a rule strictly after EVERY
+   earlier rule of the group whose name its selector matches — also when several earlier rules
+   share that name — and contain every rule.  (Within a batch rules run concurrently; batches
+   run one after the other.) *)
+Theorem C45_batches_respect_dependencies : forall rules i j ri rj,
+  (i < j)%nat -> nth_error rules i = Some ri -> nth_error rules j = Some rj -> dep_on rj ri = true ->
+  before (split_batches rules) i j.
+Proof. exact batches_respect. Qed.
+
+Theorem C45_batches_cover : forall rules i, (i < length rules)%nat -> In i (concat (split_batches rules)).
+Proof. exact batches_cover. Qed.
+
+(* base = m0;  lvl{c="x0"} = base;  lvl{c="x1"} = base;  total = sum by () (lvl):
+   both lvl rules are evaluated one by one before total *)
+Example C45_nonvacuous_batches :
+  split_batches [mkRule 10 [] (mkExpr 0 None None 1 0 None);
+                 mkRule 11 [(3, 0)] (mkExpr 10 None None 1 0 None);
+                 mkRule 11 [(3, 1)] (mkExpr 10 None None 1 0 None);
+                 mkRule 12 [] (mkExpr 11 None (Some []) 1 0 None)]
+  = [[0]; [1]; [2]; [3]]%nat.
+Proof. vm_compute. reflexivity. Qed.
+
 (* ------------------------------------------------------------------ non-vacuity *)
 Definition m0a0 : lset := [(0, 0); (1, 0)].
 Definition m0a1 : lset := [(0, 0); (1, 1)].
